@@ -7,7 +7,7 @@ EXPLANATION = ("Solver-decided part: with symbolic field values, serializing an 
                "lists the object was built from (heap aliasing is modelled, so a generator that dropped tuple(...) yields a counterexample). The clause 'assignment raises AttributeError' has no values to "
                "quantify over: it is decided by executing setattr for every public field and byte_size of every (nested) object in the interpreter's descriptor semantics on every explored path and "
                "confirmed by native replay of the same harness.")
-BOUNDS = {"quick": "every class of corpus/core plus a VERIF_SEED-chosen sample of 80 pairs + all singles of the generated pair corpus; strings 0/1, arrays 0/1/2 elements (fixed ones at their length), all leaf values symbolic",
+BOUNDS = {"quick": "every class of corpus/core plus a VERIF_SEED-chosen sample of 80 pairs + all singles of the generated pair corpus; strings 0/1, arrays 0/1/2 elements (fixed ones at their length), all leaf values symbolic; a second deserialize and reuse of the receive buffer after the read",
           "thorough": "core corpus with strings and arrays up to 2, plus ALL structs of the generated pair corpus"}
 OUTSIDE = "specifications not in the corpus; the deserialized-instance clauses on wire-ambiguous layouts of the generated corpus (they are checked on every core class and on the unambiguous generated ones); mutation through private attributes or object.__setattr__ (not the public interface)"
 ASSUMPTIONS = ["re-reading an instance's own bytes: element counts decoded from the wire are explored up to 8 (a wire-ambiguous layout can decode a count of up to 253 from shifted data)",
